@@ -36,10 +36,14 @@ TBeginStep == IsEvent("BeginStep") /\ BeginStep /\ Rec.k = k + 1
 \* one handler call; the handler logged by the implementation must be the one the spec names
 TDeliver == /\ IsEvent("Deliver") /\ Rec.id \in EventIds /\ Deliver(Rec.id)
             /\ delivered'[Rec.id][Len(delivered'[Rec.id])][2] = Rec.handler
+\* silent: the scenario skips a maneuver event of an absent agent without calling any handler
+TSkipAbsent == /\ l <= Len(Tr) /\ \E id \in EventIds : SkipAbsent(id)
+               /\ UNCHANGED <<tid, l>>
 TEndStepEvents == IsEvent("EndStepEvents") /\ EndStepEvents
 \* planned propagation events were also handed to the estimate of their target (estq)
 TTicToc == /\ IsEvent("TicToc") /\ TicToc /\ k' = Rec.k
-           /\ {id \in handled : Ev(id).planned /\ Ev(id).kind \in PropKinds} = ToSet(Rec.estq)
+           /\ {id \in handled : /\ Ev(id).planned /\ Ev(id).kind \in PropKinds
+                                 /\ delivered[id][Len(delivered[id])][2] # Absent} = ToSet(Rec.estq)
            /\ (~WithEstimation \/ Len(Rec.estq) = Cardinality(ToSet(Rec.estq)))
 Changed(f, g) == {id \in EventIds : f[id] # g[id]}
 TCompletePropagate == /\ IsEvent("CompletePropagate") /\ CompletePropagate(Rec.a) /\ truthAt'[Rec.a] = Rec.at
@@ -108,7 +112,7 @@ TSkipOutput == IsEvent("SkipOutput") /\ SkipOutput
 TEndStep == IsEvent("EndStep") /\ Rec.same /\ UNCHANGED vars
 
 TraceNext ==
-  \/ TBeginStep \/ TDeliver \/ TEndStepEvents \/ TTicToc \/ TEndBiasEvents \/ TRewardJoined \/ TSaveFail
+  \/ TBeginStep \/ TDeliver \/ TSkipAbsent \/ TEndStepEvents \/ TTicToc \/ TEndBiasEvents \/ TRewardJoined \/ TSaveFail
   \/ TCompletePropagate \/ TJoinPropagate \/ TCompletePredict \/ TJoinPredict
   \/ TEngineReset \/ TCompleteReward \/ TDecide \/ TCompleteExec \/ TApplyChanges \/ TNextEngine
   \/ TCompleteUpdate \/ TJoinUpdate \/ TSaveOutput \/ TSkipOutput \/ TEndStep
